@@ -51,6 +51,8 @@ def crash_pattern(style: str, excobj: BaseException) -> str:
     inner = frames[-1].f_code.co_name if frames else "?"
     if inner == "_get_parts":
         return "empty-name-lookup"
+    if type(excobj).__name__ == "AliasResolutionError":
+        return "unresolvable-alias-lookup"
     if style == "numpy" and inner in ("_read_returns_section", "_read_receives_section") and isinstance(excobj, IndexError):
         return "untyped-item-beyond-tuple-arity"
     top = next((f for f in frames if f.f_code.co_name == f"parse_{style}"), None)
@@ -127,7 +129,7 @@ class Stats:
         self.examples: list = []
 
 
-ALL_PARENTS = 8
+ALL_PARENTS = 9
 
 
 def replay_cases(run: Run, st, griffe, parents: Parents, cases: list, rnd: random.Random, stats: Stats, origin: str, max_parents: int = ALL_PARENTS):
@@ -185,12 +187,15 @@ def report_drift(run: Run, style: str, stats: Stats):
 
 
 # ---- long sequences beyond TLC's bounds (hypothesis) ------------------------------------------------------------------------
-def long_sequences(run: Run, styles: dict, griffe, parents: Parents, n_examples: int, max_len: int):
+def long_sequences(run: Run, styles: dict, griffe, parents: Parents, n_examples: int, max_len: int, skip: set = frozenset()):
     from hypothesis import HealthCheck, Phase, given, seed, settings  # noqa: PLC0415
     from hypothesis import strategies as hs  # noqa: PLC0415
 
     count = {"n": 0}
     for style, st in styles.items():
+        if style in skip:
+            run.note(f"{style}: long sequences skipped (the parser already ran into the step budget several times)")
+            continue
         _long_one(run, style, st, griffe, parents, n_examples, max_len, count)
     return count["n"]
 
@@ -209,13 +214,17 @@ def _long_one(run: Run, style: str, st, griffe, parents: Parents, n_examples: in
         @settings(max_examples=n_examples, database=None, deadline=None, derandomize=False, phases=[Phase.generate],
                   suppress_health_check=list(HealthCheck))
         @given(hs.sampled_from(first), hs.lists(hs.sampled_from(alphabet), min_size=5, max_size=max_len), hs.sampled_from(last),
-               hs.sampled_from(sorted(["none", "module", "class", "function", "init", "property", "tuplefn", "genfn"])),
+               hs.sampled_from(sorted(["none", "module", "class", "function", "init", "property", "tuplefn", "genfn", "aliasmod"])),
                hs.lists(hs.booleans(), min_size=len(opt_names), max_size=len(opt_names)), hs.integers(0, 11))
         def prop(a, mid, z, parent, optvals, v):
             lines = st.make_fixed_point([a, *mid, z])
             options = dict(zip(opt_names, optvals))
             text, _parts = st.concretise(lines, v)
+            if count.get("timeouts", 0) >= 4:
+                return
             r = real_parse(griffe, parents, style, text, parent, options)
+            if r["exc"] == "Timeout":
+                count["timeouts"] = count.get("timeouts", 0) + 1
             if r["unstable"]:
                 die(f"{PROP}: long sequence is not a cleandoc fixed point: {text!r}")
             check_real_clauses(run, st, griffe, r, text, lines, options, parent, None, "hypothesis")
@@ -249,19 +258,21 @@ def run_tlc(module: str, cfg: str, **kw):
 
 
 EXPECTED_DEFECTS = {
-    "google": ["NoIndexErrorSingleItemBlock", "NoAttributeErrorPropertySummary", "NoValueErrorEmptyAttributeName"],
-    "numpy": ["NoValueErrorEmptyAttributeName", "NoIndexErrorTupleOverrun", "PlainText"],
-    "sphinx": ["NoValueErrorEmptyAttributeName"],
+    ("google", "defect"): ["NoIndexErrorSingleItemBlock", "NoAttributeErrorPropertySummary", "NoValueErrorEmptyAttributeName", "NoAliasResolutionErrorInAttributes"],
+    ("numpy", "defect"): ["NoValueErrorEmptyAttributeName", "NoIndexErrorTupleOverrun", "PlainText"],
+    ("numpy", "defect2"): ["NoValueErrorEmptyAttributeName", "NoAliasResolutionErrorInAttributes"],
+    ("sphinx", "defect"): ["NoValueErrorEmptyAttributeName", "NoAliasResolutionErrorInAttributes"],
 }
 
 TLC_JOBS = {
-    # style -> tier -> list of (cfg constants, workers, replay cap or None)
-    "google": {"quick": [({"LEN": 3, "ALPHA": "mid"}, 3, 4000), ({"LEN": 4, "ALPHA": "core"}, 5, 5000)],
-               "thorough": [({"LEN": 4, "ALPHA": "rich"}, 8, 400000), ({"LEN": 5, "ALPHA": "core"}, 8, 400000)]},
-    "numpy": {"quick": [({"LEN": 3, "ALPHA": "mid"}, 3, 4000), ({"LEN": 4, "ALPHA": "core"}, 4, 5000)],
-              "thorough": [({"LEN": 4, "ALPHA": "mid"}, 8, 400000), ({"LEN": 5, "ALPHA": "core"}, 8, 400000)]},
-    "sphinx": {"quick": [({"LEN": 3, "ALPHA": "core"}, 2, 4000), ({"LEN": 4, "ALPHA": "mini"}, 2, 4000)],
-               "thorough": [({"LEN": 3, "ALPHA": "rich"}, 6, 400000), ({"LEN": 4, "ALPHA": "core"}, 8, 400000), ({"LEN": 5, "ALPHA": "mini"}, 8, 400000)]},
+    # style -> tier -> list of (cfg constants, workers, replay cap or None).  TLC checks every state of the bounded space; EMITMOD > 1 makes it
+    # hand only the final states whose checksum is 0 mod EMITMOD to the replay (deterministic sample), the cap bounds the replay further.
+    "google": {"quick": [({"LEN": 3, "ALPHA": "mid", "EMITMOD": 3}, 3, 4000), ({"LEN": 4, "ALPHA": "core", "EMITMOD": 8}, 5, 5000)],
+               "thorough": [({"LEN": 3, "ALPHA": "rich", "EMITMOD": 2}, 4, None), ({"LEN": 5, "ALPHA": "core", "EMITMOD": 24}, 8, 70000)]},
+    "numpy": {"quick": [({"LEN": 3, "ALPHA": "mid", "EMITMOD": 3}, 3, 4000), ({"LEN": 4, "ALPHA": "core", "EMITMOD": 5}, 4, 5000)],
+              "thorough": [({"LEN": 3, "ALPHA": "mid", "EMITMOD": 1}, 4, None), ({"LEN": 5, "ALPHA": "core", "EMITMOD": 24}, 8, 70000)]},
+    "sphinx": {"quick": [({"LEN": 3, "ALPHA": "core", "EMITMOD": 1}, 2, 4000), ({"LEN": 4, "ALPHA": "mini", "EMITMOD": 2}, 2, 4000)],
+               "thorough": [({"LEN": 3, "ALPHA": "rich", "EMITMOD": 1}, 4, None), ({"LEN": 4, "ALPHA": "core", "EMITMOD": 3}, 6, None), ({"LEN": 5, "ALPHA": "mini", "EMITMOD": 3}, 6, None)]},
 }
 
 
@@ -269,6 +280,8 @@ def run_replay_file(run: Run, griffe, path: str):
     with open(path) as fh:
         rec = json.load(fh)
     print(rec["what"])
+    for e in run.findings:
+        e.pop("expect_every_run", None)      # a replay re-executes one case: the other findings are not expected to show
     c = rec["case"]
     styles = load_styles(griffe, (c["style"],))
     st = styles[c["style"]]
@@ -305,21 +318,30 @@ def main(tier: str, replay: str | None = None):
         for style, st in styles.items():
             for consts, workers, cap in TLC_JOBS[style][tier]:
                 jobs[style, json.dumps(consts, sort_keys=True)] = (pool.submit(run_tlc, st.module, f"{st.module}_seq.cfg", workers=workers, constants=dict(consts, EMIT="TRUE"), timeout=3000, heap="6g"), cap)
-            jobs[style, "defect"] = (pool.submit(run_tlc, st.module, f"{st.module}_defect.cfg", workers=1, timeout=600, extra=["-continue"]), None)
+            for (dstyle, dlabel) in EXPECTED_DEFECTS:
+                if dstyle == style:
+                    jobs[style, dlabel] = (pool.submit(run_tlc, st.module, f"{st.module}_{dlabel}.cfg", workers=1, timeout=600, extra=["-continue"]), None)
     print(f"TLC done after {time.time() - t0:.1f}s", flush=True)
     run.exhaustive = True
+    stuck: set = set()
     for (style, label), (fut, cap) in jobs.items():
         st = styles[style]
         res = fut.result()
-        if label == "defect":
+        if style in stuck and not label.startswith("defect"):
+            tlc.must(res)
+            run.add_tlc(res)
+            run.note(f"{style} {label}: replay skipped (the parser already ran into the step budget several times)")
+            continue
+        if label.startswith("defect"):
             # the defect domain: the per-defect invariants are expected to FAIL on the model (TLC runs with -continue and reports
             # each); every final state of that domain is replayed, so each model-predicted defect must reproduce on the real code
             tlc.must(res, allow_violations=True)
+            res.violated = sorted(set(res.violated))       # -continue reports every violating state
             run.add_tlc(res)
-            violated = sorted(set(res.violated))
-            run.extra.setdefault("defect_domain", {})[style] = violated
-            if violated != sorted(EXPECTED_DEFECTS[style]):
-                run.note(f"{style}: defect domain: TLC reports {violated} violated on the model, documented defects: {sorted(EXPECTED_DEFECTS[style])}")
+            violated = res.violated
+            run.extra.setdefault("defect_domain", {})[f"{style}:{label}"] = violated
+            if violated != sorted(EXPECTED_DEFECTS[style, label]):
+                run.note(f"{style}: {label} domain: TLC reports {violated} violated on the model, documented defects: {sorted(EXPECTED_DEFECTS[style, label])}")
             stats = Stats()
             before = sum(h["count"] for h in run.known_hits.values()) + len(run.violations)
             replay_cases(run, st, griffe, parents, res.cases, rnd, stats, "tlc:defect-domain", 3 if tier == "quick" else ALL_PARENTS)
@@ -338,15 +360,20 @@ def main(tier: str, replay: str | None = None):
             longest = [c for c in cases if len(c["lines"]) == top]
             crashes = [c for c in longest if c["outcome"] == "crashed"]
             rest = [c for c in longest if c["outcome"] != "crashed"]
+            short = short if len(short) <= cap else rnd.sample(short, cap)
             picked = short + rnd.sample(crashes, min(len(crashes), cap // 10)) + rnd.sample(rest, min(len(rest), cap))
-            run.note(f"{style} {label}: replayed {len(picked)} of {len(cases)} emitted cases (all shorter ones, a seeded sample of the longest)")
+            run.note(f"{style} {label}: replayed {len(picked)} of {len(cases)} emitted cases (a seeded sample)")
             run.exhaustive = False
             cases = picked
+        if json.loads(label).get("EMITMOD", 1) != 1:
+            run.exhaustive = False
         stats = Stats()
         t1 = time.time()
-        replay_cases(run, st, griffe, parents, cases, rnd, stats, f"tlc:{label}", 3 if tier == "quick" else ALL_PARENTS)
+        replay_cases(run, st, griffe, parents, cases, rnd, stats, f"tlc:{label}", 3 if tier == "quick" else 5)
         print(f"{style} {label}: {len(cases)} cases, {stats.parses} parses in {time.time() - t1:.1f}s", flush=True)
+        if stats.timeouts >= 4:
+            stuck.add(style)
         report_drift(run, style, stats)
-    n_long = long_sequences(run, styles, griffe, parents, 400 if tier == "quick" else 20000, 14 if tier == "quick" else 40)
+    n_long = long_sequences(run, styles, griffe, parents, 400 if tier == "quick" else 20000, 14 if tier == "quick" else 40, stuck)
     run.extra["long_sequences"] = n_long
     run.finish()
